@@ -51,7 +51,10 @@ def problems():
 
 
 CONFIGS = [{"optimizer": "incremental"}, {"optimizer": "optimize", "optimize_priority": "lex"},
-           {"optimizer": "optimize", "optimize_priority": "weight"}]
+           {"optimizer": "optimize", "optimize_priority": "weight"},
+           # the default priority of the built-in optimiser (pareto; with ONE objective there is no front to walk:
+           # repeated solves keep answering) and box
+           {"optimizer": "optimize"}, {"optimizer": "optimize", "optimize_priority": "box"}]
 
 
 class Model:
@@ -101,6 +104,9 @@ def run_histories(case):
                     s, m = solvers[who], models[who]
                     feats = {"op": op, "objective": "+".join(o["kind"] for o in spec.get("objectives", [])) or "none",
                              "optimizer": cfg.get("optimizer"), "solver_objects": nobj,
+                             "priority": (cfg.get("optimize_priority", "pareto")
+                                          if cfg.get("optimizer") == "optimize" else None),
+                             "multi_objective": len(spec.get("objectives", [])) > 1,
                              "after_solve": any(o == "S" for _w, o in history[:pos] if _w == who)}
                     nchk = len(ins.check_results())
                     expect_exc = None
